@@ -53,6 +53,37 @@ def numeric_agg(seed, tier):
     return n, bad
 
 
+def observer_order(seed):
+    """sensors handed over inside (nested) Collections are evaluated in depth-first child order, each in its own frame"""
+    import magpylib as magpy
+    from scipy.spatial.transform import Rotation as R
+
+    rng = np.random.default_rng(seed)
+    bad, n = [], 0
+    src = [magpy.magnet.Cuboid(dimension=(1, 2, 3), polarization=(.1, .2, .3)), magpy.misc.Dipole(moment=(1, 2, 3), position=(3, 0, 0))]
+
+    def mk(i):
+        s = magpy.Sensor(pixel=rng.normal(size=(2, 3)) * .3, handedness=("left" if i % 2 else "right"), position=rng.normal(size=3) + 4)
+        s.rotate(R.from_rotvec(rng.normal(size=3)))
+        return s
+
+    layouts = {
+        "flat collection": lambda s: (magpy.Collection(s[0], s[1], s[2]), [0, 1, 2]),
+        "nested first": lambda s: (magpy.Collection(magpy.Collection(s[0]), s[1], s[2]), [0, 1, 2]),
+        "nested middle": lambda s: (magpy.Collection(s[0], magpy.Collection(s[1], magpy.Collection(s[2])), s[3]), [0, 1, 2, 3]),
+        "list with nested collection": lambda s: ([s[3], magpy.Collection(magpy.Collection(s[0]), s[1]), s[2]], [3, 0, 1, 2]),
+    }
+    for name, mkl in layouts.items():
+        sens = [mk(i) for i in range(4)]
+        obs, order = mkl(sens)
+        n += 1
+        got = magpy.getB(src, obs, squeeze=False)
+        exp = np.stack([magpy.getB(src, sens[i], squeeze=False)[:, :, 0] for i in order], axis=2)
+        if got.shape != exp.shape or not np.allclose(got, exp, rtol=1e-10, atol=1e-18):
+            bad.append(f"observers as '{name}': result slots are not the sensors in depth-first child order")
+    return n, bad
+
+
 REPLAY_NUM = """import sys
 from checks.c04 import numeric_agg
 n, bad = numeric_agg({seed}, 'quick')
@@ -77,6 +108,11 @@ def main(tier, seed):
     n, bad = numeric_agg(seed, tier)
     rep.standin("pixel_agg = named NumPy reduction over each sensor's own pixels (numeric, ragged pixel shapes, paths)", "3 sensors, 9 reductions, random shapes",
                 n, n, "random sensors with different pixel shapes and path lengths", [dict(agg="median", shapes="random")], failures=len(bad))
+    n2, bad2 = observer_order(seed)
+    rep.standin("sensors handed over inside (nested) Collections: result slots follow depth-first child order", "4 layouts", n2, max(n2, 2), "flat / nested-first / nested-middle / list with nested collection",
+                [dict(layout="nested first")], failures=len(bad2), exhaustive=True)
+    for b in bad2[:2]:
+        rep.violation("standin.observer-order", {"native_result": b, "script": "import sys\nfrom checks.c04 import observer_order\nn,b=observer_order(0)\nprint(b)\nsys.exit(1 if b else 0)\n"})
     for b in bad[:2]:
         rep.violation("standin.pixel_agg-numeric", {"native_result": b, "script": REPLAY_NUM.format(seed=seed)})
     return rep.finish()
